@@ -43,6 +43,12 @@ def obligations(tier, seed=0):
                     add(fn=fn, s=s, t=t)
                 for fn in ('<', '>=', '==', 'in'):
                     add(fn=fn, s=s, t=t, entry='op')
+    # degenerate intervals at an infinity and at zero on either side of every relation and of `in`
+    deg = [[PI, PI], [NI, NI], [Z, Z], [P(4, 0), P(4, 0)], [NI, PI], [NI, Z], [Z, PI]]
+    for s in deg:
+        for t in deg:
+            for fn in ('<', '<=', '>', '>=', '==', '!=', 'in'):
+                add(fn=fn, s=s, t=t, entry='op')
     # an interval compared with itself (same object): only a point interval gives a definite answer
     for s in same + other:
         for fn in ('mpi_lt', 'mpi_le', 'mpi_gt', 'mpi_ge'):
